@@ -24,7 +24,7 @@ impl SwiftField for Field52A {
     where
         Self: Sized,
     {
-        let lines: Vec<&str> = input.lines().collect();
+        let lines = super::field_utils::content_lines(input, "Field 52A")?;
 
         if lines.is_empty() {
             return Err(ParseError::InvalidFormat {
@@ -94,7 +94,7 @@ impl SwiftField for Field52B {
             });
         }
 
-        let lines: Vec<&str> = input.lines().collect();
+        let lines = super::field_utils::content_lines(input, "Field 52B")?;
         let mut party_identifier = None;
         let mut location = None;
         let mut current_idx = 0;
@@ -215,7 +215,7 @@ impl SwiftField for Field52D {
     where
         Self: Sized,
     {
-        let lines: Vec<&str> = input.lines().collect();
+        let lines = super::field_utils::content_lines(input, "Field 52D")?;
 
         if lines.is_empty() {
             return Err(ParseError::InvalidFormat {
